@@ -387,3 +387,27 @@ func TestC11(t *testing.T) {
 }
 
 func TestC11Regress(t *testing.T) { propC11.Regress(t) }
+
+// TestC11Concurrent: "exactly one ADD event per stored header" when the same header is delivered by several peers at the
+// same time (the experimental engine calls Chains.Add from every peer's reader goroutine). The scenarios and the
+// scheduler are C15's (harness-owned interleavings at repository-call granularity); here every plan has headers that all
+// submitters deliver, and the oracle of interest is the one-event-per-stored-header rule.
+var propC11Conc = Prop[*C15Plan]{
+	ID:   "C11",
+	Name: "TestC11Concurrent",
+	Gen: func(t *rapid.T) *C15Plan {
+		p := genC15(t)
+		if len(p.Both) == 0 {
+			p.Both = []int{rapid.IntRange(0, len(p.Hist.Specs)-1).Draw(t, "both1"), rapid.IntRange(0, len(p.Hist.Specs)-1).Draw(t, "both2")}
+		}
+		return p
+	},
+	Run: runC15,
+}
+
+func TestC11Concurrent(t *testing.T) {
+	if propC11Conc.replayEnv(t) {
+		return
+	}
+	propC11Conc.Check(t)
+}
